@@ -49,6 +49,49 @@ impl Format for Blp {
             s.extra = ext;
             out.push(s);
         }
+        if crate::thorough() {
+            // the remaining (version, encoding, alpha depth) combinations of the converter, extreme and
+            // non-square dimensions, deeper mip chains; a combination the converter refuses yields no seed
+            let more: Vec<(&str, u32, u32, bool, BlpTarget)> = vec![
+                ("blp1_raw1_a4_8x8_mips", 8, 8, true, BlpTarget::Blp1(BlpOldFormat::Raw1 { alpha_bits: AlphaBits::Bit4 })),
+                ("blp1_raw1_a8_1x1_nomips", 1, 1, false, BlpTarget::Blp1(BlpOldFormat::Raw1 { alpha_bits: AlphaBits::Bit8 })),
+                ("blp1_jpeg_noalpha_8x8_nomips", 8, 8, false, BlpTarget::Blp1(BlpOldFormat::Jpeg { has_alpha: false })),
+                ("blp1_jpeg_alpha_32x8_mips", 32, 8, true, BlpTarget::Blp1(BlpOldFormat::Jpeg { has_alpha: true })),
+                ("blp2_raw1_a0_8x8_mips", 8, 8, true, BlpTarget::Blp2(Blp2Format::Raw1 { alpha_bits: AlphaBits::NoAlpha })),
+                ("blp2_raw1_a1_16x8_mips", 16, 8, true, BlpTarget::Blp2(Blp2Format::Raw1 { alpha_bits: AlphaBits::Bit1 })),
+                ("blp2_raw1_a8_32x32_mips", 32, 32, true, BlpTarget::Blp2(Blp2Format::Raw1 { alpha_bits: AlphaBits::Bit8 })),
+                ("blp2_raw3_1x1_mips", 1, 1, true, BlpTarget::Blp2(Blp2Format::Raw3)),
+                ("blp2_jpeg_alpha_16x16_mips", 16, 16, true, BlpTarget::Blp2(Blp2Format::Jpeg { has_alpha: true })),
+                ("blp2_dxt1_noalpha_8x8_mips", 8, 8, true, BlpTarget::Blp2(Blp2Format::Dxt1 { has_alpha: false, compress_algorithm: alg })),
+                ("blp2_dxt3_noalpha_4x4_nomips", 4, 4, false, BlpTarget::Blp2(Blp2Format::Dxt3 { has_alpha: false, compress_algorithm: alg })),
+                ("blp2_dxt5_noalpha_64x16_mips", 64, 16, true, BlpTarget::Blp2(Blp2Format::Dxt5 { has_alpha: false, compress_algorithm: alg })),
+                ("blp2_dxt1_a_1x1_mips", 1, 1, true, BlpTarget::Blp2(Blp2Format::Dxt1 { has_alpha: true, compress_algorithm: alg })),
+                ("blp0_raw1_a1_8x8_nomips", 8, 8, false, BlpTarget::Blp0(BlpOldFormat::Raw1 { alpha_bits: AlphaBits::Bit1 })),
+                ("blp0_jpeg_noalpha_16x16_mips", 16, 16, true, BlpTarget::Blp0(BlpOldFormat::Jpeg { has_alpha: false })),
+            ];
+            for (name, w, h, mips, tgt) in more {
+                let is0 = matches!(tgt, BlpTarget::Blp0(_));
+                let made = std::panic::catch_unwind(|| {
+                    let t = image_to_blp(img(w, h), mips, tgt, FilterType::Nearest).ok()?;
+                    if is0 {
+                        let e = encode_blp0(&t).ok()?;
+                        Some((e.blp_bytes, e.blp_mipmaps))
+                    } else {
+                        Some((encode_blp(&t).ok()?, vec![]))
+                    }
+                });
+                let Ok(Some((bytes, ext))) = made else { continue };
+                // a seed is a file the first entry point accepts
+                let ok = if is0 { parse_blp_with_externals(&bytes, |i| Ok(ext.get(i).map(|v| v.as_slice()))).is_ok() } else { parse_blp(&bytes).is_ok() };
+                if !ok {
+                    continue;
+                }
+                let mut s = flat_seed("blp", name, bytes, is0 as u32, 168);
+                s.extra = ext;
+                s.tier2 = true;
+                out.push(s);
+            }
+        }
         out
     }
     fn run(&self, seed: &Seed, input: &[u8], rec: &mut Recorder, _scratch: &std::path::Path) {
@@ -79,6 +122,29 @@ impl Format for Blp {
             for lvl in lv {
                 let ep = if lvl == 0 { "blp::blp_to_image[level 0]" } else { "blp::blp_to_image[level >= 1]" };
                 let _ = rec.leaf(ep, || blp_to_image(&im, lvl));
+            }
+            if crate::thorough() {
+                // every level in between, and the raw JPEG stream of every level
+                for lvl in 2..n.saturating_sub(1) {
+                    let _ = rec.leaf("blp::blp_to_image[level >= 1]", || blp_to_image(&im, lvl));
+                }
+                if let Some(j) = im.content_jpeg() {
+                    rec.leaf_plain("BlpJpeg::full_jpeg", || (0..=n).filter_map(|i| j.full_jpeg(i)).map(|v| v.len()).sum::<usize>());
+                }
+            }
+        }
+        if crate::thorough() && !crate::LIGHT.load(std::sync::atomic::Ordering::Relaxed) {
+            // the path-based loader: the file plus, for BLP0, its mip level files next to it
+            let path = _scratch.join("t.blp");
+            if std::fs::write(&path, input).is_ok() {
+                for (i, e) in ext.iter().enumerate().take(16) {
+                    let _ = std::fs::write(_scratch.join(format!("t.b{i:02}")), e);
+                }
+                let _ = rec.leaf("blp::load_blp", || wow_blp::parser::load_blp(&path));
+                let _ = std::fs::remove_file(&path);
+                for i in 0..ext.len().min(16) {
+                    let _ = std::fs::remove_file(_scratch.join(format!("t.b{i:02}")));
+                }
             }
         }
     }
